@@ -110,7 +110,7 @@ func telemetryCounterName(crash []byte) (string, error) {
 	}
 
 	// Limit the number of frames we request.
-	pcs = pcs[:min(len(pcs), 16)]
+	pcs = pcs[:min(len(pcs), maxFrames)]
 
 	if len(pcs) == 0 {
 		// This can occur if all goroutines are idle, as when
@@ -319,6 +319,12 @@ func parseStackPCs(crash string) ([]uintptr, error) {
 			}
 
 			pcs = append(pcs, uintptr(pc))
+			if len(pcs) == maxFrames {
+				// Only the first maxFrames frames are used. Stop here: deep
+				// stacks continue with a "...N frames elided..." line,
+				// which is not a symbol.
+				break
+			}
 
 			// Done with this frame. Next line is a new frame.
 			prevSymbol = currSymbol
@@ -328,6 +334,9 @@ func parseStackPCs(crash string) ([]uintptr, error) {
 	}
 	return pcs, nil
 }
+
+// maxFrames is the number of stack frames encoded in a crash counter name.
+const maxFrames = 16
 
 func min(x, y int) int {
 	if x < y {
